@@ -1,7 +1,7 @@
 (* C02 -- the Verilog reader yields the circuit the netlist denotes.  Statements only; proofs in Proofs/VerilogProofs.v. *)
 From CG Require Import Verilog.ExprParse.
 From stdpp Require Import strings gmap sets.
-From CG Require Import Types Sem Api Gen.Gen_grammar Verilog.Ast Verilog.Read Verilog.Write Proofs.VerilogProofs Run.Run_C02 Proofs.VerilogReadProofs Proofs.VerilogDenoteProofs Proofs.VerilogBbProofs.
+From CG Require Import Types Sem Api Gen.Gen_grammar Verilog.Ast Verilog.Read Verilog.Write Proofs.VerilogProofs Run.Run_C02 Proofs.VerilogReadProofs Proofs.VerilogDenoteProofs Proofs.VerilogBbProofs Proofs.VerilogConvProofs.
 Open Scope string_scope.
 
 (* (1) obligation on the regenerated rule table of verilog.lark (expression .. primary, named_port_connection,
@@ -118,9 +118,31 @@ Theorem C02_prim_sel_value : ∀ k t rs v, t ∈ gate_types → rs ≠ [] → (t
 Proof. exact prim_sel_value. Qed.
 Print Assumptions C02_prim_sel_value.
 
-(* full statement for whole modules (both directions, blackbox instances included); not proved: the soundness half is
-   C02_read_denotes_sound above, the rest (success of the read, registry and pins, the converse) is decided per generated
-   module by Run_C02.holds (which evaluates the same guard in_subset and the executable form `denotes` of the conclusion);
+(* (5) the converse: every model of the module - a valuation of the nets and a value x of the unknown that satisfy every
+   assignment and every primitive instance - is, on the nets that occur in statements, the restriction of a consistent
+   valuation of the circuit that was read (the reader's synthetic nodes take the values of their sub-expressions, the pin
+   nodes of blackbox instances the values of the nets they are attached to, tie_x the value x).  Blackbox instances included.
+   Proof: every reader step extends valuations (`ext`, `gate_ext`, `ext_cond`: tree induction; `c_assign_conv`,
+   `prim_instance_conv`, `bb_instance_conv`); dual invariant `cinv` over the item fold (Proofs/VerilogConvProofs.v). *)
+Theorem C02_read_denotes_conv : ∀ rsv bbs m C,
+  in_subset bbs m = true → list_to_set (module_ids m) ⊆ rsv → read rsv bbs m = Ok C →
+  ∀ v x, sat_module m v x → ∃ w, consistent (c_g C) w ∧ ∀ n, n ∈ used_nets m → w n = v n.
+Proof. exact read_denotes_conv. Qed.
+Print Assumptions C02_read_denotes_conv.
+(* (6) read_denotes: name and interface are the declared ones and, on the declared nets, the consistent valuations of the circuit
+   are exactly the models of the module - for every module of the subset whose read succeeds *)
+Theorem C02_read_denotes : ∀ rsv bbs m C,
+  in_subset bbs m = true → list_to_set (module_ids m) ⊆ rsv → read rsv bbs m = Ok C →
+  c_name C = m_name m ∧ inputs (c_g C) = list_to_set (decl_inputs m) ∧ outputs (c_g C) = list_to_set (decl_outputs m) ∧
+  (∀ w, consistent (c_g C) w → ∃ x, sat_module m w x) ∧
+  (∀ v x, sat_module m v x → ∃ w, consistent (c_g C) w ∧ ∀ n, n ∈ used_nets m → w n = v n).
+Proof. exact read_denotes. Qed.
+Print Assumptions C02_read_denotes.
+
+(* full statement for whole modules; what C02_read_denotes does not cover: (a) *success* of the read for every module of the
+   subset (needs an identifier guard - non-empty, no leading digit - that in_subset does not contain, and the success of every
+   add / connect check), (b) the registry and (c) every pin on its net (bb_ok).  (a)-(c) are decided per generated module by
+   Run_C02.holds (which evaluates the same guard in_subset and the executable form `denotes` of the conclusion);
    see docs/C02-handover.md *)
 Definition C02_read_denotes_full : Prop := ∀ rsv bbs m,
   ports_match m = true → in_subset bbs m = true → list_to_set (module_ids m) ⊆ rsv →
